@@ -109,6 +109,7 @@ def opOfJson (j : Json) : Except String Op := do
       else if l.startsWith "max" then .maxLike else if l.startsWith "min" then .minLike else .bad))
   | "add_mets" => pure (.addMets (← s "r") (← pairsOf (← j.getObjVal? "mets")) (← (← j.getObjVal? "combine").getBool?) false)
   | "sub_mets" => pure (.addMets (← s "r") (← pairsOf (← j.getObjVal? "mets")) (← (← j.getObjVal? "combine").getBool?) true)
+  | "rm_rxn" => pure (.removeRxn (← s "r"))
   | "enter" => pure .enter
   | "exit" => pure .exit
   | _ => throw s!"unmodelled op {name}"
